@@ -1,5 +1,5 @@
 import Invoke.Lemmas.ProgramParse
-import Invoke.Lemmas.ProgramPlacementB
+import Invoke.Lemmas.ProgramPlacementD
 import Invoke.Lemmas.SpellCheck
 import Invoke.Generated.Program
 /-! # C18 — core options mean the same anywhere; task tokens and the remainder stay intact
@@ -230,6 +230,120 @@ theorem core_value_flag_placement_partial2 (ic : Ctx) (reg : List Ctx) (k : Call
   have hview := updateCore_view ic i a a' ha s1 hfresh hga' s3
   exact ⟨_, _, hA, hB, hview, overrides_view _ _ hview, rfl, rfl, rfl⟩
 
+/-- PLACEMENT, VALUE-TAKING CORE FLAG, EVERY SPELLING, WHOLE ARGV (partial3).  The same statement for the three documented
+    spellings of a core value flag (`CoreValSpelling`): spaced `-T 5`, equals `-T=5` / `--command-timeout=5`, and glued
+    `-T5` (DESIGN §4 #9) — the split is done by `presplit`, consulting the CORE flags when the task does not declare the
+    two-character prefix; a glued value may contain `=` (`-Fx=y`, `glued_core_value_with_equals_repaired`). -/
+theorem core_value_flag_placement_partial3 (ic : Ctx) (reg : List Ctx) (k : Call) (pre post : List Item)
+    (calls2 : List Call) (tok v : Tok) (ctoks : List Tok) (i : Nat) (a a' : Arg)
+    (hsp : CoreValSpelling tok v ctoks)
+    (hk : k.items = pre ++ post) (hok : ChainOK (some ic) reg (some ic) (k :: calls2))
+    (hpre : endsBare false pre = false)
+    (hcf : assoc? tok k.ctx.flags = none) (hcinv : assoc? tok k.ctx.inverse = none)
+    (hl : reg.find? (fun x => x.name = some tok || x.aliases.contains tok) = none)
+    (hvf : assoc? v k.ctx.flags = none) (hvinv : assoc? v k.ctx.inverse = none)
+    (hvf0 : assoc? v ic.flags = none) (hvinv0 : assoc? v ic.inverse = none)
+    (hf : assoc? tok ic.flags = some i) (ha : ic.args[i]? = some a) (hh : a.spec.names.headD [] ≠ "help".toList)
+    (ht : a.takesValue = true) (hr0 : a.raw = none) (ho : a.spec.optional = false) (hkl : a.spec.kind ≠ .list)
+    (hfresh : a.gotValue = false) (hs : a.setValue (.s v) = .ok a') (hpos : ic.positional = [])
+    (hbody : ∀ t ∈ argvWithCore k pre post ctoks calls2, t ≠ ['-', '-']) :
+    ∃ rA rB, programParse ic reg (argvWithCore k pre post ctoks calls2) = .ok rA ∧
+      programParse ic reg (ctoks ++ (k :: calls2).flatMap Call.toks) = .ok rB ∧
+      rA.core.view = rB.core.view ∧ overrides rA.core = overrides rB.core ∧
+      rA.tasks = (k :: calls2).map Call.result ∧ rB.tasks = rA.tasks ∧ rA.remainder = rB.remainder := by
+  obtain ⟨s1, s2, s3⟩ := Arg.setValue_settled a a' (.s v) true (by simp) hs
+  have htab := foldl_apply_tables pre k.ctx
+  have hcore : CoreStep ic (ic.setArg i a') reg (pre.foldl Item.apply k.ctx) ctoks :=
+    coreStep_value ic reg _ tok v ctoks i a a' hsp (by rw [htab.1]; exact hcf) (by rw [htab.2]; exact hcinv) hl
+      (by rw [htab.1]; exact hvf) (by rw [htab.2]; exact hvinv) hf ha hh ht hr0 ho hs
+  have hcore0 : CoreStep0 ic (ic.setArg i a') ctoks := coreStep0_value ic tok v ctoks i a a' hsp hvf0 hvinv0 hf ha ht hr0 ho hs
+  have hmiss' : (ic.setArg i a').missingPositional = [] := by
+    simp [Ctx.missingPositional, Ctx.setArg, hpos]
+  obtain ⟨hA, hB⟩ := program_with_core ic (ic.setArg i a') reg k pre post calls2 ctoks rfl rfl hmiss' hk hok hpre hcore hcore0 hbody
+  have hga' : a'.gotValue = true := by
+    have : ¬ a'.spec.kind = .list := by rw [s1]; exact hkl
+    simp [Arg.gotValue, this, s3]
+  have hview := updateCore_view ic i a a' ha s1 hfresh hga' s3
+  exact ⟨_, _, hA, hB, hview, overrides_view _ _ hview, rfl, rfl, rfl⟩
+
+/-- PLACEMENT, BOOLEAN CORE FLAG INSIDE A LATER CALL (partial2, any call of the chain).  The chain is
+    `(k0 :: r0) ++ k :: calls2`, the flag sits between the items `pre` and `post` of `k`. -/
+theorem core_flag_placement_invariant_partial2_later (ic : Ctx) (reg : List Ctx) (k0 : Call) (r0 : List Call) (k : Call)
+    (pre post : List Item) (calls2 : List Call) (tok : Tok) (i : Nat) (a a' : Arg)
+    (hk : k.items = pre ++ post) (hok : ChainOK (some ic) reg (some ic) ((k0 :: r0) ++ k :: calls2))
+    (hpre : endsBare false pre = false)
+    (hun : Unsplit tok) (hcf : assoc? tok k.ctx.flags = none) (hcinv : assoc? tok k.ctx.inverse = none)
+    (hl : reg.find? (fun x => x.name = some tok || x.aliases.contains tok) = none)
+    (hf : assoc? tok ic.flags = some i) (ha : ic.args[i]? = some a) (hh : a.spec.names.headD [] ≠ "help".toList)
+    (ht : a.takesValue = false) (hkl : a.spec.kind ≠ .list) (hfresh : a.gotValue = false)
+    (hs : a.setValue (.b true) = .ok a') (hpos : ic.positional = [])
+    (hbodyA : ∀ t ∈ (k0 :: r0).flatMap Call.toks ++ argvWithCore k pre post [tok] calls2, t ≠ ['-', '-'])
+    (hbodyB : ∀ t ∈ [tok] ++ ((k0 :: r0) ++ k :: calls2).flatMap Call.toks, t ≠ ['-', '-']) :
+    ∃ rA rB, programParse ic reg ((k0 :: r0).flatMap Call.toks ++ argvWithCore k pre post [tok] calls2) = .ok rA ∧
+      programParse ic reg ([tok] ++ ((k0 :: r0) ++ k :: calls2).flatMap Call.toks) = .ok rB ∧
+      rA.core.view = rB.core.view ∧ overrides rA.core = overrides rB.core ∧
+      rA.tasks = ((k0 :: r0) ++ k :: calls2).map Call.result ∧ rB.tasks = rA.tasks ∧ rA.remainder = rB.remainder := by
+  obtain ⟨s1, s2, s3⟩ := Arg.setValue_settled a a' (.b true) true (by simp) hs
+  have htab := foldl_apply_tables pre k.ctx
+  have hcore : CoreStep ic (ic.setArg i a') reg (pre.foldl Item.apply k.ctx) [tok] :=
+    coreStep_bool ic reg _ tok i a a' hun (by rw [htab.1]; exact hcf) (by rw [htab.2]; exact hcinv) hl hf ha hh ht hs
+  have hcore0 : CoreStep0 ic (ic.setArg i a') [tok] := coreStep0_bool ic tok i a a' hun hf ha ht hs
+  have hmiss' : (ic.setArg i a').missingPositional = [] := by
+    simp [Ctx.missingPositional, Ctx.setArg, hpos]
+  obtain ⟨hA, hB⟩ := program_with_core_later ic (ic.setArg i a') reg k0 r0 k pre post calls2 [tok] rfl rfl hmiss' hk hok hpre
+    hcore hcore0 hbodyA hbodyB
+  have hga' : a'.gotValue = true := by
+    have : ¬ a'.spec.kind = .list := by rw [s1]; exact hkl
+    simp [Arg.gotValue, this, s3]
+  have hview := updateCore_view ic i a a' ha s1 hfresh hga' s3
+  exact ⟨_, _, hA, hB, hview, overrides_view _ _ hview, rfl, rfl, rfl⟩
+
+/-- PLACEMENT, VALUE-TAKING CORE FLAG (every spelling) INSIDE A LATER CALL (partial3, any call of the chain) -/
+theorem core_value_flag_placement_partial3_later (ic : Ctx) (reg : List Ctx) (k0 : Call) (r0 : List Call) (k : Call)
+    (pre post : List Item) (calls2 : List Call) (tok v : Tok) (ctoks : List Tok) (i : Nat) (a a' : Arg)
+    (hsp : CoreValSpelling tok v ctoks)
+    (hk : k.items = pre ++ post) (hok : ChainOK (some ic) reg (some ic) ((k0 :: r0) ++ k :: calls2))
+    (hpre : endsBare false pre = false)
+    (hcf : assoc? tok k.ctx.flags = none) (hcinv : assoc? tok k.ctx.inverse = none)
+    (hl : reg.find? (fun x => x.name = some tok || x.aliases.contains tok) = none)
+    (hvf : assoc? v k.ctx.flags = none) (hvinv : assoc? v k.ctx.inverse = none)
+    (hvf0 : assoc? v ic.flags = none) (hvinv0 : assoc? v ic.inverse = none)
+    (hf : assoc? tok ic.flags = some i) (ha : ic.args[i]? = some a) (hh : a.spec.names.headD [] ≠ "help".toList)
+    (ht : a.takesValue = true) (hr0 : a.raw = none) (ho : a.spec.optional = false) (hkl : a.spec.kind ≠ .list)
+    (hfresh : a.gotValue = false) (hs : a.setValue (.s v) = .ok a') (hpos : ic.positional = [])
+    (hbodyA : ∀ t ∈ (k0 :: r0).flatMap Call.toks ++ argvWithCore k pre post ctoks calls2, t ≠ ['-', '-'])
+    (hbodyB : ∀ t ∈ ctoks ++ ((k0 :: r0) ++ k :: calls2).flatMap Call.toks, t ≠ ['-', '-']) :
+    ∃ rA rB, programParse ic reg ((k0 :: r0).flatMap Call.toks ++ argvWithCore k pre post ctoks calls2) = .ok rA ∧
+      programParse ic reg (ctoks ++ ((k0 :: r0) ++ k :: calls2).flatMap Call.toks) = .ok rB ∧
+      rA.core.view = rB.core.view ∧ overrides rA.core = overrides rB.core ∧
+      rA.tasks = ((k0 :: r0) ++ k :: calls2).map Call.result ∧ rB.tasks = rA.tasks ∧ rA.remainder = rB.remainder := by
+  obtain ⟨s1, s2, s3⟩ := Arg.setValue_settled a a' (.s v) true (by simp) hs
+  have htab := foldl_apply_tables pre k.ctx
+  have hcore : CoreStep ic (ic.setArg i a') reg (pre.foldl Item.apply k.ctx) ctoks :=
+    coreStep_value ic reg _ tok v ctoks i a a' hsp (by rw [htab.1]; exact hcf) (by rw [htab.2]; exact hcinv) hl
+      (by rw [htab.1]; exact hvf) (by rw [htab.2]; exact hvinv) hf ha hh ht hr0 ho hs
+  have hcore0 : CoreStep0 ic (ic.setArg i a') ctoks := coreStep0_value ic tok v ctoks i a a' hsp hvf0 hvinv0 hf ha ht hr0 ho hs
+  have hmiss' : (ic.setArg i a').missingPositional = [] := by
+    simp [Ctx.missingPositional, Ctx.setArg, hpos]
+  obtain ⟨hA, hB⟩ := program_with_core_later ic (ic.setArg i a') reg k0 r0 k pre post calls2 ctoks rfl rfl hmiss' hk hok hpre
+    hcore hcore0 hbodyA hbodyB
+  have hga' : a'.gotValue = true := by
+    have : ¬ a'.spec.kind = .list := by rw [s1]; exact hkl
+    simp [Arg.gotValue, this, s3]
+  have hview := updateCore_view ic i a a' ha s1 hfresh hga' s3
+  exact ⟨_, _, hA, hB, hview, overrides_view _ _ hview, rfl, rfl, rfl⟩
+
+/-- SHADOWING, WHOLE ARGV.  In a chain of calls admissible in the sense of C01 every flag token is, by `Item.ok`, a flag
+    the TASK declares — also when the core context declares the same spelling (`-p`: `--pty` vs. the auto short flag
+    of a parameter `pos`).  Then the task receives it (its context is exactly the C01 result) and the core context keeps
+    exactly its declared values: no override is produced. -/
+theorem shadowing_flag_wins_whole (ic : Ctx) (reg : List Ctx) (k : Call) (calls2 : List Call)
+    (hok : ChainOK (some ic) reg (some ic) (k :: calls2))
+    (hbody : ∀ t ∈ (k :: calls2).flatMap Call.toks, t ≠ ['-', '-']) :
+    ∃ r, programParse ic reg ((k :: calls2).flatMap Call.toks) = .ok r ∧ r.core.view = ic.view ∧
+      overrides r.core = overrides ic ∧ r.tasks = (k :: calls2).map Call.result :=
+  ⟨_, program_plain ic reg k calls2 hok hbody, updateCore_self_view ic, overrides_view _ _ (updateCore_self_view ic), rfl⟩
+
 /-- THE ERASURE LEMMA behind both: once the machine's current flag is settled, it plays no role in what the parser
     does with any further tokens — two machines that differ only in such a flag stay in lockstep. -/
 theorem settled_flag_is_inert (ts : List Tok) (m : M) (f : Option (Where × Nat)) (g : Bool)
@@ -343,6 +457,30 @@ theorem core_optional_then_core_flag_counterexample :
         (fun r => (r.core.valueOf "list".toList, r.tasks.map (fun c => c.valueOf "flag".toList))) = some (.b true, [.b true]) := by
   decide
 
+/-- REPAIRED (known finding C18-glued-core-value-with-equals, fix "value glued to a core short flag keeps any '=' it
+    contains inside a task context too"): a value glued to a CORE short flag may contain `=` wherever the flag is
+    written — `-Fx=y t1`, `t1 -Fx=y` and `t1 -F x=y` all set list-format to "x=y" and run `t1`. -/
+theorem glued_core_value_with_equals_repaired :
+    effect (programParse coreCtx c18Reg (argvOf ["t1", "-Fx=y"])) = effect (programParse coreCtx c18Reg (argvOf ["-Fx=y", "t1"])) ∧
+    effect (programParse coreCtx c18Reg (argvOf ["t1", "-Fx=y"])) = effect (programParse coreCtx c18Reg (argvOf ["t1", "-F", "x=y"])) ∧
+    (programParse coreCtx c18Reg (argvOf ["t1", "-Fx=y"])).toOption.map
+        (fun r => (r.core.valueOf "list-format".toList, r.tasks.map Ctx.name)) = some (.s "x=y".toList, [some "t1".toList]) := by
+  decide
+
+/-- the glued-value rule the code had before that repair (it consulted only the flags of the current context) -/
+def isGluedPinned (m : M) (orig : Tok) : Bool :=
+  !isLongFlag orig && orig.length > 2 && (orig.drop 2).head? ≠ some '=' &&
+    (match ctxFlag m (orig.take 2) with | some a => a.takesValue | none => false)
+
+/-- PRE-FIX BEHAVIOUR: with the pinned rule, in a task context that does not declare `-F`, `-Fx=y` is not recognised as
+    glued — so the `=` split of `presplit` applied and produced the unknown token `-Fx` — while the repaired rule
+    recognises it -/
+theorem glued_core_value_with_equals_pinned_counterexample :
+    let m : M := { initial := some coreCtx, cur := c18Reg[1]?, curIsInitial := false, registry := c18Reg, ignoreUnknown := false }
+    isGluedPinned m "-Fx=y".toList = false ∧ isGlued m "-Fx=y".toList = true ∧
+    (presplit m "-Fx=y".toList).toOption = some ("-F".toList, ["x=y".toList]) ∧ beforeEq "-Fx=y".toList = "-Fx".toList := by
+  decide
+
 /-- hypotheses of `core_flag_placement_invariant_partial` are satisfiable: `-e` in `t2`'s context with `pos` still missing -/
 example : ∃ i a a', assoc? "-e".toList coreCtx.flags = some i ∧ coreCtx.args[i]? = some a ∧
     a.spec.names.headD [] ≠ "help".toList ∧ a.takesValue = false ∧ a.setValue (.b true) = .ok a' ∧
@@ -389,10 +527,72 @@ example : ∃ rA rB,
   have h := core_value_flag_placement_partial2 coreCtx c18Reg plCall [.pos "val".toList 0] [.toggle "-v".toList 1] []
     "-T".toList "5".toList 0 (coreCtx.args.getD 0 (Arg.init { names := [] })) _ rfl (chainOKb_sound _ (by decide)) rfl
     (unsplitB_sound (by decide)) (by decide) (by decide) (by decide) (by decide) (by decide) (by decide) (by decide)
-    (by decide) (by decide) (by decide) (by decide) (by decide) (by decide) (by decide) (by decide) (by decide) rfl (by decide)
+    (by decide) (by decide) (by decide) (by decide) (by decide) (by decide) (by decide) (by decide) rfl (by decide)
     (noSentinelB_sound (by decide))
   let ⟨rA, rB, h1, h2, _, h4, _, h6, _⟩ := h
   ⟨rA, rB, h1, h2, h4, h6⟩
+
+/-- `core_value_flag_placement_partial3` applied to the glued and the `=` spelling: `t2 val -T5 -v` / `t2 val --command-timeout=5 -v` -/
+example : ∃ rA rB,
+    programParse coreCtx c18Reg (argvOf ["t2", "val", "-T5", "-v"]) = .ok rA ∧
+    programParse coreCtx c18Reg (argvOf ["-T5", "t2", "val", "-v"]) = .ok rB ∧
+    overrides rA.core = overrides rB.core ∧ rB.tasks = rA.tasks :=
+  have h := core_value_flag_placement_partial3 coreCtx c18Reg plCall [.pos "val".toList 0] [.toggle "-v".toList 1] []
+    "-T".toList "5".toList ["-T5".toList] 0 (coreCtx.args.getD 0 (Arg.init { names := [] })) _
+    (.glued 'T' '5' [] rfl rfl (by decide) (by decide)) rfl (chainOKb_sound _ (by decide)) rfl
+    (by decide) (by decide) (by decide) (by decide) (by decide) (by decide) (by decide)
+    (by decide) (by decide) (by decide) (by decide) (by decide) (by decide) (by decide) (by decide) rfl (by decide)
+    (noSentinelB_sound (by decide))
+  let ⟨rA, rB, h1, h2, _, h4, _, h6, _⟩ := h
+  ⟨rA, rB, h1, h2, h4, h6⟩
+example : ∃ rA rB,
+    programParse coreCtx c18Reg (argvOf ["t2", "val", "--command-timeout=5", "-v"]) = .ok rA ∧
+    programParse coreCtx c18Reg (argvOf ["--command-timeout=5", "t2", "val", "-v"]) = .ok rB ∧
+    overrides rA.core = overrides rB.core ∧ rB.tasks = rA.tasks :=
+  have h := core_value_flag_placement_partial3 coreCtx c18Reg plCall [.pos "val".toList 0] [.toggle "-v".toList 1] []
+    "--command-timeout".toList "5".toList ["--command-timeout=5".toList] 0 (coreCtx.args.getD 0 (Arg.init { names := [] })) _
+    (.eq (flagTokB_sound (by decide))) rfl (chainOKb_sound _ (by decide)) rfl
+    (by decide) (by decide) (by decide) (by decide) (by decide) (by decide) (by decide)
+    (by decide) (by decide) (by decide) (by decide) (by decide) (by decide) (by decide) (by decide) rfl (by decide)
+    (noSentinelB_sound (by decide))
+  let ⟨rA, rB, h1, h2, _, h4, _, h6, _⟩ := h
+  ⟨rA, rB, h1, h2, h4, h6⟩
+
+/-- … and to a glued value that contains `=` (no side condition any more): `t1 -Fx=y` vs `-Fx=y t1` -/
+example : ∃ rA rB,
+    programParse coreCtx c18Reg (argvOf ["t1", "-Fx=y"]) = .ok rA ∧
+    programParse coreCtx c18Reg (argvOf ["-Fx=y", "t1"]) = .ok rB ∧
+    rA.core.view = rB.core.view ∧ rB.tasks = rA.tasks :=
+  have h := core_value_flag_placement_partial3 coreCtx c18Reg
+    { tname := "t1".toList, ctx := c18Reg.getD 1 (Ctx.empty none), items := [] } [] [] []
+    "-F".toList "x=y".toList ["-Fx=y".toList] 10 (coreCtx.args.getD 10 (Arg.init { names := [] })) _
+    (.glued 'F' 'x' "=y".toList rfl rfl (by decide) (by decide)) rfl (chainOKb_sound _ (by decide)) rfl
+    (by decide) (by decide) (by decide) (by decide) (by decide) (by decide) (by decide)
+    (by decide) (by decide) (by decide) (by decide) (by decide) (by decide) (by decide) (by decide) rfl (by decide)
+    (noSentinelB_sound (by decide))
+  let ⟨rA, rB, h1, h2, h3, _, _, h6, _⟩ := h
+  ⟨rA, rB, h1, h2, h3, h6⟩
+
+/-- `core_flag_placement_invariant_partial2_later` applied: `t1 --name zed t2 -e val -v` vs `-e t1 --name zed t2 val -v` -/
+example : ∃ rA rB,
+    programParse coreCtx c18Reg (argvOf ["t1", "--name", "zed", "t2", "-e", "val", "-v"]) = .ok rA ∧
+    programParse coreCtx c18Reg (argvOf ["-e", "t1", "--name", "zed", "t2", "val", "-v"]) = .ok rB ∧
+    overrides rA.core = overrides rB.core ∧ rB.tasks = rA.tasks :=
+  have h := core_flag_placement_invariant_partial2_later coreCtx c18Reg plCall2 [] plCall [] plCall.items [] "-e".toList 5
+    (coreCtx.args.getD 5 (Arg.init { names := [] })) _ rfl (chainOKb_sound _ (by decide)) rfl (unsplitB_sound (by decide))
+    (by decide) (by decide) (by decide) (by decide) (by decide) (by decide) (by decide) (by decide) (by decide) rfl (by decide)
+    (noSentinelB_sound (by decide)) (noSentinelB_sound (by decide))
+  let ⟨rA, rB, h1, h2, _, h4, _, h6, _⟩ := h
+  ⟨rA, rB, h1, h2, h4, h6⟩
+
+/-- `shadowing_flag_wins_whole` applied: `t2 -p val -v` — `-p` is t2's own flag for `pos`, the core `pty` stays off -/
+def plShadow : Call := { tname := "t2".toList, ctx := c18Reg.headD (Ctx.empty none),
+                         items := [.spaced "-p".toList "val".toList 0, .toggle "-v".toList 1] }
+example : ∃ r, programParse coreCtx c18Reg (argvOf ["t2", "-p", "val", "-v"]) = .ok r ∧
+    overrides r.core = overrides coreCtx ∧ r.tasks = [plShadow.result] :=
+  let ⟨r, h1, _, h3, h4⟩ := shadowing_flag_wins_whole coreCtx c18Reg plShadow [] (chainOKb_sound _ (by decide)) (noSentinelB_sound (by decide))
+  ⟨r, h1, h3, h4⟩
+example : (overrides coreCtx).pty = false ∧ plShadow.result.valueOf "pos".toList = .s "val".toList := by decide
 
 /-- hypotheses of `settled_flag_is_inert`: a machine whose flag is a Boolean core flag that has been set -/
 example : Inert ((M.start (some coreCtx) c18Reg false).reflag none false) := inert_noflag _ rfl
